@@ -186,7 +186,7 @@ def generate(rng, tier, prop='C16'):
 
 
 def _renumber(case):
-    """Drop empty producers/consumers is NOT done (ids stay stable); only the start list is filtered."""
+    """After an actor was removed from the end of its list: drop its entry from the start order."""
     case['start'] = [s for s in case['start']
                      if (s[0] == 'p' and s[1] < len(case['producers'])) or
                      (s[0] == 'c' and s[1] < len(case['consumers'])) or
